@@ -1,4 +1,5 @@
 import Proofs.LoadPerm
+import Gen.Sharing
 
 /-!
 # C03 — Loading links exactly the key-matching pairs, independent of input order
@@ -193,6 +194,13 @@ theorem input_split_perm (parts1 parts2 : List (List Stmt)) (h : parts1.flatten.
     (Loader.inputs [] parts1).Perm (Loader.inputs [] parts2) := by
   rw [input_split, input_split]
   simpa using h
+
+/-- **phase_order** (over the generated table): `ModelLoader.populate` still runs the five phases in the order in
+    which `Pyx.Load.buildCore` composes them — classes, identifiers, associations, instances, connections. -/
+theorem phase_order :
+    Pyx.Gen.Sharing.phaseOrder =
+      ["populate_classes", "populate_unique_identifiers", "populate_associations", "populate_instances",
+       "populate_connections"] := by decide
 
 /-! ## non-vacuity: a concrete population with a matching, a null, a dangling and a duplicate key -/
 
